@@ -273,3 +273,207 @@ class PairUploadSmall(PairUploadTheorem):
     cases = {"empty": 0, "1-byte": 1, "2-bytes": 2, "3-bytes": 3, "4-bytes": 4}
     loop_specs = {}
     ensures = {"returns-exactly-the-value": lambda s: PairUploadTheorem.ok(s)}
+
+
+# ------------------------------------------------------------------------------------------------ the whole stack
+from pyvc.interp import SDict
+from pyvc.values import ABSENT
+from contracts.c04_codec import OD
+
+NODE = "canopen.node.local:LocalNode"
+
+
+def _store_get(interp, store, index, sub):
+    inner = interp.dict_get(store, index, ABSENT, False)
+    if inner is ABSENT:
+        return ABSENT
+    return interp.dict_get(inner, sub, ABSENT, False)
+
+
+def _store_put(interp, store, index, sub, v):
+    inner = interp.dict_get(store, index, ABSENT, False)
+    if inner is ABSENT:
+        inner = SDict()
+        interp.setitem(store, index, inner)
+    interp.setitem(inner, sub, v)
+
+
+def mk_stack(w, index, sub):
+    """real LocalNode (its get_data / set_data / _find_object and data store) behind the real SdoServer; the object
+    dictionary is the abstract one of env/od.py holding a read-write DOMAIN variable at the addressed entry"""
+    var = w.obj(OD, data_type=0x0F, access_type="rw", value=None, default=None, min=None, max=None, name="v", index=0x2000,
+                subindex=0, parent=None)
+    rec = w.obj("env.od:RecStub", has_sub=True, var=var)
+    od = w.obj("env.od:OdStub", present=True, is_var=w.bool("is_var"), var=var, rec=rec)
+    node = w.obj(NODE, object_dictionary=od, data_store=w.dict({}), _read_callbacks=w.list([]), _write_callbacks=w.list([]), id=1)
+    net = w.obj("env.pairnet:PairNet", client=None, server=None)
+    srv = w.run(Call(("new", SERVER), [0x601, 0x581, node]))
+    w.setfield(srv, "network", net)
+    stale = w.plist("stale", maxn=2, elem=lambda i: w.bytes("stale%d" % i, 8))
+    cl = w.obj(CLIENT, rx_cobid=0x601, tx_cobid=0x581, network=net, od=None, responses=w.new_queue(stale),
+               MAX_RETRIES=1, RESPONSE_TIMEOUT=0.3, PAUSE_BEFORE_SEND=0.0, RETRY_DELAY=0.1)
+    w.setfield(net, "client", cl)
+    w.setfield(net, "server", srv)
+    return cl, srv, node, net
+
+
+def _stored_is_payload(interp, p):
+    v = _store_get(interp, p["node"].fields["data_store"], p["index"], p["sub"])
+    if v is ABSENT:
+        return False
+    return _prefix_or_empty(v, p["data"], p["data"].n) if isinstance(v, LBytes) else False
+
+
+def _st_d_inv(interp, fr):
+    w = interp.l03
+    p = w.pre
+    ws, srv, cl, data = fr.locals["stream"], p["srv"], p["cl"], p["data"]
+    f, s = ws.fields, srv.fields
+    pos = fr.locals["pos"]
+    fin = compare(">=", pos, data.n)
+    c = {"range": And(compare(">=", pos, 0), compare("<=", pos, data.n), S.eq(fr.locals["total"], data.n)),
+         "client-pos": S.eq(f["pos"], pos),
+         "toggles-agree": And(S.eq(f["_toggle"], s["_toggle"]), Or(S.eq(s["_toggle"], 0), S.eq(s["_toggle"], 0x10))),
+         "segmented": f["_exp_header"] is None,
+         "server-buffer-is-prefix": _prefix_or_empty(s["_buffer"], data, pos),
+         "multiplexer-kept": And(S.eq(s["_index"], p["index"]), S.eq(s["_subindex"], p["sub"])),
+         "no-response-pending": _queue_empty(cl)}
+    if p["declared"]:
+        c["done-iff-all-sent"] = Iff(f["_done"], fin)
+        if bool(fin):
+            c["stored-when-all-sent"] = _stored_is_payload(interp, p)
+    else:
+        c["open"] = Not(f["_done"])
+    return c
+
+
+def _st_d_havoc(interp, fr):
+    w = interp.l03
+    p = w.pre
+    ws, srv, data = fr.locals["stream"], p["srv"], p["data"]
+    ctx = interp.ctx
+    pos = ctx.fresh_int("h_pos", 0, (1 << 32) - 1)
+    tog = ctx.fresh_int("h_toggle", 0, 0x10)
+    fr.locals["pos"] = pos
+    ws.fields["pos"] = pos
+    ws.fields["_toggle"] = tog
+    srv.fields["_toggle"] = tog
+    srv.fields["_buffer"] = LBytes(data.arr, data.off, pos, True)
+    del ctx.events[:]
+    ctx.emit("havoc-trace")
+    if p["declared"]:
+        fin = ctx.fresh_bool("h_finished")
+        ctx.assume(Iff(fin, compare(">=", pos, data.n)))
+        if bool(fin):
+            ws.fields["_done"] = True
+            _store_put(interp, p["node"].fields["data_store"], p["index"], p["sub"], LBytes(data.arr, data.off, data.n, False))
+        else:
+            ws.fields["_done"] = False
+
+
+def _st_u_inv(interp, fr):
+    w = interp.l03
+    p = w.pre
+    rs, srv, cl, value = fr.locals["stream"], p["srv"], p["cl"], p["data"]
+    f, s = rs.fields, srv.fields
+    out = fr.locals["out"]
+    k = out.n if isinstance(out, LBytes) else len(out.items)
+    done = truth_val(f["_done"])
+    return {"range": And(compare(">=", k, 0), compare("<=", k, value.n)),
+            "collected-is-prefix": _prefix_or_empty(out, value, k),
+            "server-buffer-is-the-rest": _same_suffix(s["_buffer"], value, k),
+            "toggles-agree": And(S.eq(f["_toggle"], s["_toggle"]), Or(S.eq(s["_toggle"], 0), S.eq(s["_toggle"], 0x10))),
+            "segmented": f["exp_data"] is None,
+            "size-announced": S.eq(f["size"], value.n),
+            "done-means-everything-collected": Implies(done, compare("==", k, value.n)),
+            "no-response-pending": _queue_empty(cl)}
+
+
+def _st_u_havoc(interp, fr):
+    w = interp.l03
+    p = w.pre
+    rs, srv, value = fr.locals["stream"], p["srv"], p["data"]
+    ctx = interp.ctx
+    k = ctx.fresh_int("h_k", 0, (1 << 32) - 1)
+    tog = ctx.fresh_int("h_utoggle", 0, 0x10)
+    fr.locals["out"] = LBytes(value.arr, value.off, k, True)
+    rs.fields["_toggle"] = tog
+    rs.fields["pos"] = ctx.fresh_int("h_rspos", 0, 1 << 33)
+    rs.fields["_done"] = bool(ctx.fresh_bool("h_done"))
+    srv.fields["_toggle"] = tog
+    srv.fields["_buffer"] = LBytes(value.arr, binop("+", value.off, k), binop("-", value.n, k), True)
+    del ctx.events[:]
+    ctx.emit("havoc-trace")
+
+
+def _st_u_variant(interp, fr):
+    w = interp.l03
+    out = fr.locals["out"]
+    k = out.n if isinstance(out, LBytes) else len(out.items)
+    return binop("+", binop("-", w.pre["data"].n, k), ite(truth_val(fr.locals["stream"].fields["_done"]), 0, 1))
+
+
+@contract
+class StackRoundTrip(Contract):
+    """the whole SDO stack on both sides, REAL code only (streams, SdoClient, SdoServer, LocalNode and its data store;
+    models: inline bus, abstract object dictionary): for every payload of 5 .. 2**32-1 bytes (declared) or 0 .. 2**32-1
+    (not declared), written in any chunking and then read back, the bytes read are exactly the bytes written"""
+    target = "canopen.sdo.client:WritableStream.write"
+    id = "StackRoundTrip"
+    functions = PairDownloadTheorem.functions + ("canopen.sdo.client:ReadableStream.__init__", "canopen.sdo.client:ReadableStream.read",
+                                                 "canopen.sdo.server:SdoServer.init_upload", "canopen.sdo.server:SdoServer.segmented_upload",
+                                                 "canopen.node.local:LocalNode.get_data", "canopen.node.local:LocalNode.set_data",
+                                                 "canopen.node.local:LocalNode._find_object")
+    props = ("C03",)
+    cases = {"declared": True, "undeclared": False}
+    loop_specs = {("download_in_chunks", 0): LoopSpec(_st_d_inv, _st_d_havoc,
+                                                      lambda interp, fr: binop("-", fr.locals["total"], fr.locals["pos"])),
+                  ("upload_all", 0): LoopSpec(_st_u_inv, _st_u_havoc, _st_u_variant)}
+    xcheck_n = 4
+    max_paths = 6000
+
+    def setup(self, w, case):
+        index, sub = w.int("index", 0, 0xFFFF), w.int("sub", 0, 0xFF)
+        data = w.lbytes("data", 5, (1 << 32) - 1)
+        cl, srv, node, net = mk_stack(w, index, sub)
+        size = (data.n if hasattr(data, "n") else len(data)) if case else None
+        w.pre.update(cl=cl, srv=srv, node=node, data=data, index=index, sub=sub, declared=case)
+        if not w.native:
+            w.interp.l03 = w
+        return Call(("func", "env.drivers", "download_then_upload"), [cl, index, sub, data, size])
+
+    @staticmethod
+    def ok(s):
+        p = s.pre
+        if not s.returned:
+            return False
+        aborts = [e for e in s.ev if e[0] == "send" and bool(S.eq(S.byte(e[2], 0), 0x80))]
+        if aborts:
+            return False
+        if isinstance(p["data"], LBytes):
+            return _prefix_or_empty(s.ret, p["data"], p["data"].n)
+        return S.is_byteslike(s.ret) and S.same_bytes(s.ret, p["data"])
+
+    ensures = {"read-back-exactly-what-was-written": lambda s: StackRoundTrip.ok(s)}
+
+
+@contract
+class StackRoundTripSmall(Contract):
+    """the same stack, payloads of 0..4 bytes (expedited both ways when declared; empty segmented transfer), handed to
+    write() at once"""
+    target = "canopen.sdo.client:WritableStream.write"
+    id = "StackRoundTripSmall"
+    functions = StackRoundTrip.functions
+    props = ("C03",)
+    cases = {"%d-bytes/%s" % (n, "declared" if d else "undeclared"): (n, d) for n in range(0, 5) for d in (True, False)}
+    xcheck_n = 3
+
+    def setup(self, w, case):
+        n, declared = case
+        index, sub = w.int("index", 0, 0xFFFF), w.int("sub", 0, 0xFF)
+        data = w.bytes("data", n)
+        cl, srv, node, net = mk_stack(w, index, sub)
+        w.pre.update(cl=cl, srv=srv, node=node, data=data, index=index, sub=sub, declared=declared)
+        return Call(("func", "env.drivers", "write_once_then_upload"), [cl, index, sub, data, n if declared else None])
+
+    ensures = {"read-back-exactly-what-was-written": lambda s: StackRoundTrip.ok(s)}
